@@ -77,9 +77,15 @@ def run(ctx):
 
 
 # -----------------------------------------------------------------------------------------------
-def _frames(ctx, py):
-    t0 = time.time()
-    n_sites = 0
+_FRAME_TABLE = {}
+
+
+def frame_table(py):
+    """{(module, qualified function): (bad sites, all sites)} for every function / method of the ten modules (cached)"""
+    key = id(py)
+    if key in _FRAME_TABLE:
+        return _FRAME_TABLE[key]
+    table = {}
     for m in MODULES:
         src = source_of(m)
         sites = frame.analyze_module(src, OWNED)
@@ -95,7 +101,6 @@ def _frames(ctx, py):
                 funcs += ["%s.%s" % (n.name, x.name) for x in n.body if isinstance(x, ast.FunctionDef)]
         for f in funcs:
             ss = by_func.get(f, [])
-            n_sites += len(ss)
             # a private helper's writes to its own parameters / to self are judged where it is called (frame.analyze_module)
             bad = [s for s in ss if not s.ok() and not s.deferred]
             outs = OUT_PARAMS.get((m, f))
@@ -105,14 +110,49 @@ def _frames(ctx, py):
             if "." in f:
                 cls, meth = f.split(".")
                 allowed = STATE_WRITERS.get(cls, set())
+                soft = []
                 if allowed is not None and meth not in allowed and not frame.is_private(f):
-                    bad += [s for s in ss if s.origin == frame.OWN and s.kind.startswith(("attribute-store", "item-store", "augmented", "method:"))]
-            ctx.ob("C19.frame.%s.%s" % (m, f), "f", not bad, "ast-freshness", (time.time() - t0) / max(1, len(funcs)),
-                   "%d in-place mutation site(s), every target fresh or the object's documented own state" % len(ss) if not bad
-                   else "; ".join("line %d `%s` writes a target that is %s (%s)" % (s.lineno, s.text, s.origin, s.kind) for s in bad[:3]),
-                   cex=None if not bad else dict(module=m, function=f, sites=[dict(line=s.lineno, code=s.text, origin=s.origin, kind=s.kind) for s in bad[:5]]),
-                   native=None if not bad else _native_frame(py, m, f))
-    ctx.notes.append(dict(mutation_sites_analysed=n_sites))
+                    # a method that is not a documented state writer stores on self (a cache?): whether results still depend
+                    # only on the arguments is a matter of its invalidation logic -- not decidable by this analysis, and not
+                    # forbidden by the property; the dynamic history obligations decide it.  Reported as undecided.
+                    soft = [s for s in ss if s.origin == frame.OWN and s.kind.startswith(("attribute-store", "item-store", "augmented", "method:"))]
+                table[(m, f)] = (bad, ss, soft)
+                continue
+            table[(m, f)] = (bad, ss, [])
+    _FRAME_TABLE[key] = table
+    return table
+
+
+def emit_frame(ctx, py, prefix, m, f, dt=0.0):
+    bad, ss, soft = frame_table(py)[(m, f)]
+    if not bad and soft:
+        ctx.ob("%s.frame.%s.%s" % (prefix, m, f), "f", None, "ast-freshness", dt,
+               "a method outside the documented state writers stores on the object (a cache?): purity not established statically; "
+               + "; ".join("line %d `%s`" % (s.lineno, s.text) for s in soft[:3]))
+        return
+    ctx.ob("%s.frame.%s.%s" % (prefix, m, f), "f", not bad, "ast-freshness", dt,
+           "%d in-place mutation site(s), every target fresh or the object's documented own state" % len(ss) if not bad
+           else "; ".join("line %d `%s` writes a target that is %s (%s)" % (s.lineno, s.text, s.origin, s.kind) for s in bad[:3]),
+           cex=None if not bad else dict(module=m, function=f, sites=[dict(line=s.lineno, code=s.text, origin=s.origin, kind=s.kind) for s in bad[:5]]),
+           native=None if not bad else _native_frame(py, m, f))
+
+
+def frame_obligations(ctx, py, prefix, modules):
+    """Frame obligations of every function / method of the given modules, under another property's name: a contract
+    'result == spec(arguments)' is only meaningful for a function that keeps no state between calls and leaves its
+    arguments alone, so each property re-establishes the frame of the modules it puts under contract."""
+    for (m, f) in sorted(frame_table(py)):
+        if m in modules:
+            emit_frame(ctx, py, prefix, m, f)
+
+
+def _frames(ctx, py):
+    t0 = time.time()
+    table = frame_table(py)
+    dt = (time.time() - t0) / max(1, len(table))
+    for (m, f) in table:
+        emit_frame(ctx, py, "C19", m, f, dt)
+    ctx.notes.append(dict(mutation_sites_analysed=sum(len(v_[1]) for v_ in table.values())))
 
 
 def _native_frame(py, module, func):
@@ -172,6 +212,21 @@ def _determinism(ctx, py):
                     bad.append("%s line %d: rng rebound to something that is not check_random_state(rng)" % (fn.name, ln))
                 elif not normalised:
                     bad.append("%s line %d: rng.%s used before rng = check_random_state(rng)" % (fn.name, ln, ev[4:]))
+        # the normaliser itself, whatever it is bound to in this module: integer seeds of any integer type seed alike
+        mod = getattr(py, m)
+        crs = getattr(mod, "check_random_state", None)
+        if crs is not None:
+            want = np.random.RandomState(7).randn(3)
+            for form in (7, np.int64(7), np.int32(7), np.uint8(7), np.array([7])[0]):
+                try:
+                    got = crs(form).randn(3)
+                    if not np.array_equal(got, want):
+                        bad.append("check_random_state(%s(7)) does not seed like RandomState(7)" % type(form).__name__)
+                except Exception as exc:
+                    bad.append("check_random_state(%s(7)) raises %r" % (type(form).__name__, exc))
+            st = np.random.RandomState(11)
+            if crs(st) is not st:
+                bad.append("check_random_state(RandomState) does not return the generator it was given")
         ctx.ob("C19.det.%s" % m, "f", not bad, "ast-scan", 0.0,
                "no global-RNG / clock / environment read, no set iteration; draws only from rng / self.rng obtained via check_random_state" if not bad else "; ".join(bad[:4]),
                cex=None if not bad else dict(module=m, findings=bad[:6]))
